@@ -89,6 +89,23 @@ def handle (op : String) (a : List String) : Option String :=
                   ++ ":" ++ compact s' ++ ":" ++ evs
       some (m ++ "\t" ++ sp)
     | _, _ => bad
+  | "c16.pushn", fl :: specs =>
+    match specs.mapM expand, fl.toNat? with
+    | some ds, some fl =>
+      let items (st : List Bytes) : String := ",".intercalate (st.reverse.map compact)
+      let s := ds.foldl appendData []
+      let evm := match Model.Interp.coreEval Script.hashes orc st0 s fl none none none none with
+        | .ok r => "ok:" ++ toString r.stack.length ++ ":" ++ toString r.alt.length ++ ":" ++ items r.stack
+        | .err e => "err." ++ e
+        | .panic p => "panic:" ++ p
+      let m := "ok:" ++ toString s.length ++ ":" ++ compact s ++ ":" ++ evm
+      -- spec: the shortest push of each datum in order; the reference interpreter leaves exactly the data, first at the bottom
+      let s' := (ds.map Spec.ScriptBuild.minimalPush).flatten
+      let evs := match Spec.ScriptSem.coreEval Script.hashes orc st0 s' fl none none none none with
+        | .ok r => if r.stack = ds.reverse ∧ r.alt = [] then "ok:" ++ toString ds.length ++ ":0:" ++ items ds.reverse else "spec-eval-differs"
+        | _ => "spec-eval-differs"
+      some (m ++ "\t" ++ "ok:" ++ toString s'.length ++ ":" ++ compact s' ++ ":" ++ evs)
+    | _, _ => bad
   | "c16.num", [n, fl] =>
     match n.toInt?, fl.toNat? with
     | some n, some fl =>
